@@ -130,6 +130,11 @@ class Strings(Contract):
                 chk('parse_raw_set_val', int(z.val) == c, [c, bs, int(z.val)])
                 z = Fxp(0.0, s, n, f); z.from_bin(x.bin(), raw=True)
                 chk('parse_raw_from_bin', int(z.val) == c, [c, x.bin(), int(z.val)])
+                if wide:
+                    # the same after a shallow copy of the receiver was resized to a narrow word (it shares the status record)
+                    z = Fxp(0.0, s, n, f); w_ = z.copy(); w_.resize(n_word=16)
+                    z.from_bin(x.bin(), raw=True)
+                    chk('parse_raw_wide', int(z.val) == c, [c, 'after copy().resize(16)', int(z.val)])
                 if n <= 53:
                     for text in (bs, hs):
                         y = Fxp(text, s, n, f)
